@@ -274,3 +274,10 @@ def run(ctx):
   r1_lattice(ctx)
   r2_dispatch(ctx)
   r4_float_casting_registry(ctx)
+  # the '*' clause: what resolution lets through is decided by the CURRENT policy, every time
+  from sa.rules import c11, c19  # pylint: disable=g-import-not-at-top
+  c19._relabel(ctx, 'C11.R4', 'C13.R6', 'resolution asks the support check for every applicable rule, on every path, and only its ValueError means "skip" (C11.R4, resolution part)',
+               lambda c: c11.r4_exception_discipline(c, resolve_only=True))
+  ctx.rules['C13.R6'].floor = 1  # the resolution site only
+  c19._relabel(ctx, 'C11.R1', 'C13.R7', 'resolution keeps no memory: a verdict is never reused after the policy or the rule changed (C11.R1)', c11.r1_purity)
+  c11.r23_resolution_table(ctx, 'C13.R8', 'a rule whose config the policy refuses for the target op is skipped at resolution time, for * and op-specific rules alike (single-rule stores)', single_only=True)
